@@ -43,6 +43,7 @@ class ExcV:
 
     def __init__(self, name, args=()):
         self.name, self.args = name, tuple(args)
+        self.cause = None
 
     def __str__(self):
         if self.name == "KeyError" and len(self.args) == 1:
@@ -198,6 +199,20 @@ class ClassV:
         return False
 
     @_cached
+    def dataclass_order(self):
+        for c in self.mro():
+            for d in c.node.decorator_list:
+                if isinstance(d, ast.Call) and "dataclass" in ast.unparse(d.func):
+                    for k in d.keywords:
+                        if k.arg == "order" and isinstance(k.value, ast.Constant) and k.value.value:
+                            return True
+        return False
+
+    @_cached
+    def total_ordering(self):
+        return any("total_ordering" in ast.unparse(d) for c in self.mro() for d in c.node.decorator_list)
+
+    @_cached
     def dataclass_eq(self):
         for c in self.mro():
             for d in c.node.decorator_list:
@@ -343,6 +358,15 @@ class Obj:
     def _order(self, name, o):
         r = self._call(name, o)
         if r is NotImplemented or (isinstance(r, tuple) and r == ("builtin", "NotImplemented")):
+            if isinstance(o, Obj) and o.cls is self.cls and self.cls.dataclass_order():
+                a, b = tuple(self.fields.values()), tuple(o.fields.values())
+                return {"__lt__": a < b, "__le__": a <= b, "__gt__": a > b, "__ge__": a >= b}[name]
+            if name != "__lt__" and self.cls.total_ordering() and self.cls.dunder("__lt__")[1] is not None:
+                lt = self._order("__lt__", o)
+                if lt is NotImplemented:
+                    return NotImplemented
+                eq = self.__eq__(o)
+                return {"__le__": lt or eq, "__gt__": not lt and not eq, "__ge__": not lt}[name]
             return NotImplemented
         return Interp(self.cls.mod).truth(r)
 
@@ -541,6 +565,20 @@ class _TypingShim:
 _TypingShim = _TypingShim()
 
 
+class _DataclassesShim:
+    replace = ("builtin", "dataclasses.replace")
+    asdict = ("builtin", "dataclasses.asdict")
+    astuple = ("builtin", "dataclasses.astuple")
+    fields = ("builtin", "dataclasses.fields")
+    is_dataclass = ("builtin", "dataclasses.is_dataclass")
+
+    def __getattr__(self, a):
+        return Opaque("dataclasses." + a)
+
+
+_DataclassesShim = _DataclassesShim()
+
+
 class _FunctoolsShim:
     reduce = _functools.reduce
     partial = _functools.partial
@@ -674,6 +712,10 @@ class World:
             return Opaque(f"{m}.{n}")         # decorators: honoured where functions are defined / called
         if m == "functools" and n is None:
             return ("pymodule", _FunctoolsShim)
+        if m == "dataclasses" and n in ("replace", "asdict", "astuple", "fields", "is_dataclass"):
+            return ("builtin", "dataclasses." + n)
+        if m == "dataclasses" and n is None:
+            return ("pymodule", _DataclassesShim)
         if m == "contextlib" and n == "contextmanager":
             return Opaque("contextlib.contextmanager")
         if m == "contextlib" and n == "suppress":
@@ -854,7 +896,13 @@ class Interp:
             pass
         elif isinstance(st, ast.Assert):
             if not self.truth(self.ev(st.test, env)):
-                raise PyRaise("AssertionError", (self.mod.name, st.lineno))
+                msg = ()
+                if st.msg is not None:
+                    try:
+                        msg = (self.ev(st.msg, env),)
+                    except (Unsupported, PyRaise):
+                        msg = ()
+                raise PyRaise("AssertionError", (self.mod.name, st.lineno), ExcV("AssertionError", msg))
         elif isinstance(st, ast.Raise):
             self.exec_raise(st, env)
         elif isinstance(st, ast.FunctionDef):
@@ -892,6 +940,17 @@ class Interp:
         elif isinstance(st, ast.ImportFrom):
             for a in st.names:
                 env[a.asname or a.name] = self.mod.resolve_import(st.module, a.name)
+        elif isinstance(st, ast.Match):
+            subject = self.ev(st.subject, env)
+            for case in st.cases:
+                binds = {}
+                if self.match_pattern(case.pattern, subject, binds, env):
+                    saved_env = {k: env[k] for k in binds if k in env}
+                    env.update(binds)
+                    if case.guard is not None and not self.truth(self.ev(case.guard, env)):
+                        continue
+                    self.exec_block(case.body, env)
+                    break
         elif isinstance(st, ast.Nonlocal):
             env.setdefault("__nonlocal__", set()).update(st.names)
         elif isinstance(st, ast.Global):
@@ -990,6 +1049,75 @@ class Interp:
         else:
             raise Unsupported(f"assign target {type(t).__name__}")
 
+    def match_pattern(self, p, v, binds, env):
+        if isinstance(p, ast.MatchValue):
+            return self.compare(ast.Eq(), v, self.ev(p.value, env))
+        if isinstance(p, ast.MatchSingleton):
+            return v is p.value
+        if isinstance(p, ast.MatchAs):
+            if p.pattern is not None and not self.match_pattern(p.pattern, v, binds, env):
+                return False
+            if p.name is not None:
+                binds[p.name] = v
+            return True
+        if isinstance(p, ast.MatchOr):
+            for alt in p.patterns:
+                b2 = {}
+                if self.match_pattern(alt, v, b2, env):
+                    binds.update(b2)
+                    return True
+            return False
+        if isinstance(p, ast.MatchSequence):
+            if not isinstance(v, (list, tuple, collections.deque)):
+                return False
+            vs = list(v)
+            stars = [i for i, q in enumerate(p.patterns) if isinstance(q, ast.MatchStar)]
+            if not stars:
+                return len(vs) == len(p.patterns) and all(self.match_pattern(q, x, binds, env) for q, x in zip(p.patterns, vs))
+            i = stars[0]
+            after = len(p.patterns) - i - 1
+            if len(vs) < len(p.patterns) - 1:
+                return False
+            if not all(self.match_pattern(q, x, binds, env) for q, x in zip(p.patterns[:i], vs[:i])):
+                return False
+            if p.patterns[i].name is not None:
+                binds[p.patterns[i].name] = vs[i:len(vs) - after]
+            return all(self.match_pattern(q, x, binds, env) for q, x in zip(p.patterns[i + 1:], vs[len(vs) - after:] if after else []))
+        if isinstance(p, ast.MatchMapping):
+            if not isinstance(v, dict):
+                return False
+            for k, q in zip(p.keys, p.patterns):
+                kv = self.ev(k, env)
+                if kv not in v or not self.match_pattern(q, v[kv], binds, env):
+                    return False
+            if p.rest is not None:
+                used = [self.ev(k, env) for k in p.keys]
+                binds[p.rest] = {k: x for k, x in v.items() if k not in used}
+            return True
+        if isinstance(p, ast.MatchClass):
+            c = self.ev(p.cls, env)
+            if not self.isinstance_(v, c):
+                return False
+            if p.patterns:
+                if isinstance(c, type) and len(p.patterns) == 1:
+                    return self.match_pattern(p.patterns[0], v, binds, env)
+                if isinstance(c, ClassV) and c.is_dataclass():
+                    names = [f[0] for f in c.dataclass_fields()]
+                    for nm, q in zip(names, p.patterns):
+                        if not self.match_pattern(q, self.getattr(v, nm), binds, env):
+                            return False
+                else:
+                    raise Unsupported("positional class pattern")
+            for nm, q in zip(p.kwd_attrs, p.kwd_patterns):
+                try:
+                    x = self.getattr(v, nm)
+                except PyRaise:
+                    return False
+                if not self.match_pattern(q, x, binds, env):
+                    return False
+            return True
+        raise Unsupported(f"pattern {type(p).__name__}")
+
     def call_dunder(self, o, name, args, node=None):
         c, st = o.cls.dunder(name)
         if st is None:
@@ -1016,6 +1144,15 @@ class Interp:
             v = ExcV(v[1], ())
         if isinstance(v, ClassV):
             v = self.instantiate(v, [], {})
+        if st.cause is not None and isinstance(v, (ExcV, Obj)):
+            try:
+                cause = self.ev(st.cause, env)
+            except Unsupported:
+                cause = None
+            if isinstance(v, ExcV):
+                v.cause = cause
+            else:
+                v.fields["__cause__"] = cause
         if isinstance(v, ExcV):
             raise PyRaise(v.name, where, v)
         if isinstance(v, Obj):
@@ -1602,6 +1739,8 @@ class Interp:
             except KeyError:
                 raise Unsupported(f"{o[1].name}.{a} not found")
         if isinstance(o, tuple) and len(o) == 2 and o[0] == "pymodule":
+            if o[1] is _DataclassesShim or o[1] is _TypingShim or o[1] is _FunctoolsShim:
+                return getattr(o[1], a)
             if o[1] is _copy or getattr(o[1], "__name__", "") == "copy":
                 return ("builtin", "copy." + a)
             if getattr(o[1], "__name__", "") == "operator" and a in ("attrgetter", "methodcaller"):
@@ -1625,7 +1764,9 @@ class Interp:
                 return o.args
             if a == "__class__":
                 return ("exc", o.name)
-            if a in ("errno", "strerror", "filename", "code"):
+            if a in ("__cause__", "__context__"):
+                return o.cause
+            if a in ("errno", "strerror", "filename", "code", "__traceback__"):
                 return None
             raise PyRaise("AttributeError", None)
         if isinstance(o, BoundHost):
@@ -2075,6 +2216,37 @@ class Interp:
             return BoundHost(args[0], args[1:], kw)
         if name == "contextlib.suppress":
             return SuppressV(list(args))
+        if name.startswith("dataclasses."):
+            o = args[0]
+            what = name.split(".")[1]
+            if what == "is_dataclass":
+                return (isinstance(o, Obj) and o.cls.is_dataclass()) or (isinstance(o, ClassV) and o.is_dataclass())
+            cls = o.cls if isinstance(o, Obj) else o
+            if not (isinstance(cls, ClassV) and cls.is_dataclass()):
+                raise PyRaise("TypeError", None, ExcV("TypeError", ("not a dataclass",)))
+            names = [f[0] for f in cls.dataclass_fields()]
+            if what == "fields":
+                return tuple(Obj(_object_class(self.mod.world), name=nm) for nm in names)
+            if what == "replace":
+                n2 = Obj(o.cls)
+                n2.fields = dict(o.fields)
+                for k, v in kw.items():
+                    if k not in names:
+                        raise PyRaise("TypeError", None, ExcV("TypeError", (f"unexpected field {k}",)))
+                    n2.fields[k] = v
+                return n2
+
+            def conv(v):
+                if isinstance(v, Obj) and v.cls.is_dataclass():
+                    return {k: conv(x) for k, x in v.fields.items()} if what == "asdict" else tuple(conv(x) for x in v.fields.values())
+                if isinstance(v, list):
+                    return [conv(x) for x in v]
+                if isinstance(v, tuple):
+                    return tuple(conv(x) for x in v)
+                if isinstance(v, dict):
+                    return {k: conv(x) for k, x in v.items()}
+                return _copy.deepcopy(v)
+            return conv(o)
         if name == "operator.attrgetter":
             names = list(args)
 
